@@ -30,7 +30,11 @@ def run(case):
         steps = np.concatenate([np.zeros_like(path[:1]), np.diff(path, axis=0)], axis=0)
         t = cases.trajectory(steps, case['symbols'], M, case['time_step'], case['temperature'], case['species_kind'], coords_are_displacement=True, base_positions=path[0] - np.floor(path[0]))
     else:
-        coords = path - np.floor(path) if form == 'wrapped' else path
+        coords = path - np.floor(path) if form in ('wrapped', 'shifted') else path
+        if form == 'shifted':
+            # every coordinate handed over in another periodic image (an unwrapped first run followed by a wrapped restart, ...)
+            t_i, a_i, x_i = np.indices(path.shape)
+            coords = coords + ((3 * t_i + 5 * a_i + 7 * x_i + int(case.get('shift_seed', 0))) % 7 - 3)
         t = cases.derived_trajectory(coords, case['symbols'], M, case['time_step'], case['temperature'], case['species_kind'], derive=case.get('derive'))
     if case.get('touch_first'):
         gcall(lambda: t.displacements)  # start from the displacement representation
@@ -101,7 +105,8 @@ def msd_cases(draw, tier):
     T, N, _ = path.shape
     drift = np.array(draw(st.lists(st.sampled_from([0.0, 0.0, 0.05, -0.11, 0.2, -0.24]), min_size=3 * N, max_size=3 * N))).reshape(1, N, 3)
     c['path'] = (path + drift * np.arange(T).reshape(T, 1, 1)).tolist()
-    c['form'] = draw(st.sampled_from(['wrapped', 'wrapped', 'unwrapped', 'displacements']))
+    c['form'] = draw(st.sampled_from(['wrapped', 'wrapped', 'unwrapped', 'displacements', 'shifted']))
+    c['shift_seed'] = draw(st.integers(0, 6))
     c['touch_first'] = draw(st.booleans())
     c['dims_order'] = draw(st.permutations([1, 2, 3]))
     c['tile'] = draw(st.sampled_from([1, 1, 1, 1, 1, 40])) if T >= 12 else 1  # a long run: hundreds of cell crossings
